@@ -62,6 +62,7 @@ type C04Scenario struct {
 	Edits    [][]SrcEdit `json:"source_edits"`
 	Truncate bool        `json:"truncate_at_every_offset"`
 	Visitor  [][2]int    `json:"visitor_replacements"` // (k-th visited node, replacement kind); k=-1: every k
+	Nest     [2]int      `json:"nesting,omitempty"`    // (template, depth) of the deep-nesting source fed under every option set
 	RawSrc   string      `json:"raw_source,omitempty"` // shrinking: use this source text instead of printing Tree
 	Source   string      `json:"source_text,omitempty"`
 }
@@ -87,7 +88,7 @@ func (c04Engine) Count(tier string) int {
 	return 3000
 }
 func (c04Engine) Rule() string {
-	return "Scenario i from H(VERIF_SEED,'C04',i): a typed random program of the mini-expr fragment (with external calls, closures, ConstExpr candidates), an environment, and fault plans for every seam: (1) each call index k of the reference journal x fault kind (thorough: all 8 kinds; quick: 2 seeded kinds) on fresh and reused VMs; (2) a crash injected by the verif hook at EVERY instruction of the dynamic trace (<= 400; sampled beyond), then a probe run on the same VM; (3) five bad-datum variants plus wrong environment values (nil, empty struct, empty map, map missing members); (4) the source cut at EVERY byte offset (prefixes and suffixes, splitting multi-byte runes) and 3-6 seeded byte-edit sets (replace/insert/delete, invalid UTF-8 bytes), each fed to Parse, Compile with and without Env, and Eval; (5) a patch visitor replacing the k-th visited node (every k <= 40) by well-formed subtrees of other kinds and static types; (6) 6 seeded option subsets of {no Env, AllowUndefinedVariables, Optimize(false), AsBool/AsInt64/AsFloat64, ConstExpr on present, absent and non-function names, Operator on present, absent and ill-shaped functions}. One evaluation = one library call under recover. Non-trivial = the call ran with a fault actually injected (fault fired / mutated source / replaced node / option set other than plain Env); distinct = distinct (api, source text, options, fault) signatures."
+	return "Scenario i from H(VERIF_SEED,'C04',i): a typed random program of the mini-expr fragment (with external calls, closures, ConstExpr candidates), an environment, and fault plans for every seam: (1) each call index k of the reference journal x fault kind (thorough: all 8 kinds; quick: 2 seeded kinds) on fresh and reused VMs; (2) a crash injected by the verif hook at EVERY instruction of the dynamic trace (<= 400; sampled beyond), then a probe run on the same VM; (3) five bad-datum variants plus wrong environment values (nil, empty struct, empty map, map missing members); (4) the source cut at EVERY byte offset (prefixes and suffixes, splitting multi-byte runes) and 3-6 seeded byte-edit sets (replace/insert/delete, invalid UTF-8 bytes), each fed to Parse, Compile with and without Env, and Eval; (5) a patch visitor replacing the k-th visited node (every k <= 40) by well-formed subtrees of other kinds and static types; (6) a construct nested 32-64 levels inside itself (22 templates: elvis, conditionals, calls, literals, operators, member chains, slices) under every option subset: work that doubles per level is a hang; (7) 6 seeded option subsets of {no Env, AllowUndefinedVariables, Optimize(false), AsBool/AsInt64/AsFloat64, ConstExpr on present, absent and non-function names, Operator on present, absent and ill-shaped functions}. One evaluation = one library call under recover. Non-trivial = the call ran with a fault actually injected (fault fired / mutated source / replaced node / option set other than plain Env); distinct = distinct (api, source text, options, fault) signatures."
 }
 func (c04Engine) Assumptions() []string {
 	return []string{
@@ -97,7 +98,7 @@ func (c04Engine) Assumptions() []string {
 	}
 }
 func (c04Engine) Required(tier string) []string {
-	return []string{"hook_calls", "calls/parse", "calls/compile", "calls/eval", "calls/run", "fault/call_fired", "fault/crash_fired", "fault/data_variant", "fault/wrong_env", "fault/source_truncated", "fault/source_edited", "fault/invalid_utf8", "fault/visitor_replaced", "fault/option_sets", "fault/constexpr_absent_name", "fault/constexpr_call_failed", "errors_returned", "programs_run_after_faulty_compile"}
+	return []string{"hook_calls", "calls/parse", "calls/compile", "calls/eval", "calls/run", "fault/call_fired", "fault/crash_fired", "fault/data_variant", "fault/wrong_env", "fault/source_truncated", "fault/source_edited", "fault/invalid_utf8", "fault/visitor_replaced", "fault/option_sets", "fault/deep_nesting", "fault/constexpr_absent_name", "fault/constexpr_call_failed", "errors_returned", "programs_run_after_faulty_compile"}
 }
 func (c04Engine) Decode(raw []byte) (interface{}, error) {
 	var sc C04Scenario
@@ -192,7 +193,44 @@ func (c04Engine) Gen(seed uint64, idx int, tier string) interface{} {
 		}
 		sc.Options = append(sc.Options, o)
 	}
+	sc.Nest = [2]int{fr.Intn(len(nestTemplates)), fr.Range(32, 64)}
 	return sc
+}
+
+// nestTemplates: one construct nested inside itself (prefix^d core suffix^d). Work
+// that doubles per level turns a few hundred bytes of input into a hang; work that
+// is linear per level finishes in microseconds at these depths.
+var nestTemplates = [][3]string{
+	{"(", "P", " ?: true)"},
+	{"(", "P", " ? true : false)"},
+	{"P ? (", "1", ") : 2"},
+	{"Q ? 2 : (", "1", ")"},
+	{"F1(", "A", ")"},
+	{"[", "1", "]"},
+	{"-", "A", ""},
+	{"not ", "P", ""},
+	{"{a: ", "1", "}"},
+	{"(A + ", "1", ")"},
+	{"(", "A", " + 1)"},
+	{"O", "", ".Next"},
+	{"O", "", "?.Next"},
+	{"(", "CB(true)", " ?: CB(false))"},
+	{"(", "P", " and Q)"},
+	{"(", "A", " in [1, 2] ? 1 : 2)"},
+	{"(", "A", " in 1..3 ? 1 : 2)"},
+	{"Xs[", "0", ":][0]"},
+	{"Any?.a[", "0", "]"},
+	{"Tup(", "A", ", 1)[0]"},
+	{"len(", "\"s\"", " + \"s\")"},
+	{"(", "S", " matches \"a\" ? \"a\" : \"b\")"},
+}
+
+func nestSource(n [2]int) string {
+	if n[1] <= 0 || n[0] < 0 || n[0] >= len(nestTemplates) {
+		return ""
+	}
+	t := nestTemplates[n[0]]
+	return strings.Repeat(t[0], n[1]) + t[1] + strings.Repeat(t[2], n[1])
 }
 
 const nReplacementKinds = 14
@@ -660,6 +698,10 @@ func (c04Engine) Run(sci interface{}, ctx *RunCtx) *Finding {
 				extra = append(extra, pair[0]+" "+o.OperatorOp+" "+pair[1])
 			}
 		}
+		if ns := nestSource(sc.Nest); ns != "" {
+			extra = append(extra, ns)
+			ctx.Count("fault/deep_nesting", 1)
+		}
 		for _, s := range extra {
 			p := doCompile(label+" on "+s, s, sw, opts...)
 			if p != nil {
@@ -767,6 +809,9 @@ func (c04Engine) Shrinks(sci interface{}) []interface{} {
 	}
 	if len(sc.Options) > 0 {
 		add(func(c *C04Scenario) { c.Options = nil })
+	}
+	if sc.Nest[1] > 0 {
+		add(func(c *C04Scenario) { c.Nest = [2]int{} })
 	}
 	// a mutated source becomes the raw source of a scenario without source faults
 	raw := func(s string) {
